@@ -22,5 +22,10 @@ CONSTANTS
   FreshPerCall = TRUE
   ShareChoices = {FALSE}
   PerWriterWrapper = FALSE
+  FlushKinds = {"none"}
+  ErrKinds = {"plain"}
+  FlushAtEnd = FALSE
+  RetryKinds = {}
+  MaxRetry = 0
 INVARIANTS TypeOK CountExact NoWriteAfterFailure PrefixDelivered FirstError NoFailEqualsString FailsAtCapacity StringNeverPanics CallStartsFresh HealthyAfterFailure
 CHECK_DEADLOCK FALSE
